@@ -186,6 +186,7 @@ class XsdGen:
         self.family = None
         self.allow_known_findings = False
         self.feat = set()
+        self.third_type = None
 
     def name(self, used, kind="e"):
         rng = self.rng
@@ -444,9 +445,14 @@ class XsdGen:
         other = None
         if rng.random() < (0.45 if self.hostile else 0.4) and tns and not self.simple:
             other = Schema(f"urn:xsdgen:{salt}:other", efd=rng.random() < 0.7, afd=False, file=rng.choice(["other.xsd", "other.xsd", "other_base_types.xsd", "common_types_v2.xsd"]))  # (module names of several words: import aliases are built from the words two module paths differ in)
+            want_third = rng.random() < 0.3
+            third_tns = f"urn:xsdgen:{salt}:third"
             if rng.random() < 0.3:
                 # mirrored namespace names: the package paths hold the same words in another order
-                main.tns, other.tns = f"http://{salt}.mirror/", f"http://mirror.{salt}/"
+                if want_third:
+                    other.tns, third_tns = f"http://{salt}.mirror/", f"http://mirror.{salt}/"
+                else:
+                    main.tns, other.tns = f"http://{salt}.mirror/", f"http://mirror.{salt}/"
                 self.feat.add("mirrored-namespace-names")
             oct = self.complex_type(ss, other, self.gname("OtherType"), self.depth, [])
             other.ctypes.append(oct)
@@ -455,6 +461,15 @@ class XsdGen:
             ss.others.append(other)
             ctypes.append(oct)
             self.feat.add("import")
+            if want_third:
+                # a third schema whose type has the very name of the second one's: a module using both needs two aliases
+                third = Schema(third_tns, efd=other.efd, afd=False, file="third.xsd")
+                tct = self.complex_type(ss, third, oct.name, self.depth, [])
+                third.ctypes.append(tct)
+                ss.others.append(third)
+                ctypes.append(tct)
+                self.third_type = tct
+                self.feat.add("same-type-name-in-two-imported-schemas")
         for i in range(n_types):
             ct = self.complex_type(ss, main, self.gname("Type"), 0, list(ctypes))
             main.ctypes.append(ct)
@@ -529,6 +544,8 @@ class XsdGen:
             if self.hostile:
                 variants += [v for v in (twin.name.lower(), twin.name.upper(), twin.name[:1].swapcase() + twin.name[1:]) if v != twin.name and lx.is_ncname(v)]
             other.ctypes[0].name = rng.choice(variants)
+            if getattr(self, "third_type", None) is not None:
+                self.third_type.name = other.ctypes[0].name
             self.feat.add("same-type-name-in-two-namespaces")
             # ... and both of them as branches of one choice (one compound field naming both classes)
             hosts = [c for c in main.ctypes if c.content is not None and c.content.kind == "sequence" and c.base is None and not c.mixed and not any(d.base is c for d in main.ctypes)]
